@@ -106,6 +106,121 @@ impl Elem for String {
   }
 }
 
+/// Element whose own JSON form is an ARRAY (`[k,v]`, as serde writes every tuple struct); the key is a projection.
+#[derive(Clone, Copy, Debug, PartialEq, Eq, Serialize, Deserialize)]
+struct Tup(u8, u8);
+
+impl KeyComparable for Tup {
+  type Key = u8;
+  fn key(&self) -> &u8 {
+    &self.0
+  }
+}
+
+impl Elem for Tup {
+  type K = u8;
+  type KeyArg = u8;
+  const KIND: &'static str = "tuple";
+  fn hkey(&self) -> u8 {
+    self.0
+  }
+  fn key_arg(k: &u8) -> u8 {
+    *k
+  }
+  fn jval(&self) -> Value {
+    json!([self.0, self.1])
+  }
+  fn show(&self) -> String {
+    format!("({},{})", self.0, self.1)
+  }
+  fn show_key(k: &u8) -> String {
+    k.to_string()
+  }
+}
+
+/// Element whose own JSON form is `null` or a number (a newtype around `Option<u8>`); the key is the value.
+#[derive(Clone, Copy, Debug, PartialEq, Eq, Serialize, Deserialize)]
+struct Nul(Option<u8>);
+
+impl KeyComparable for Nul {
+  type Key = Option<u8>;
+  fn key(&self) -> &Option<u8> {
+    &self.0
+  }
+}
+
+impl Elem for Nul {
+  type K = Option<u8>;
+  type KeyArg = Nul;
+  const KIND: &'static str = "nullable";
+  fn hkey(&self) -> Option<u8> {
+    self.0
+  }
+  fn key_arg(k: &Option<u8>) -> Nul {
+    Nul(*k)
+  }
+  fn jval(&self) -> Value {
+    match self.0 {
+      None => Value::Null,
+      Some(n) => json!(n),
+    }
+  }
+  fn show(&self) -> String {
+    match self.0 {
+      None => "null".into(),
+      Some(n) => format!("some{}", n),
+    }
+  }
+  fn show_key(k: &Option<u8>) -> String {
+    Nul(*k).show()
+  }
+}
+
+/// Element whose own JSON form varies with the value: a string (`"A"`), an object holding a number (`{"B":1}`) or an
+/// object holding an array (`{"C":[1,2]}`), as serde writes an externally tagged enum; the key is the value.
+#[derive(Clone, Copy, Debug, PartialEq, Eq, Serialize, Deserialize)]
+enum En {
+  A,
+  B(u8),
+  C(u8, u8),
+}
+
+impl KeyComparable for En {
+  type Key = En;
+  fn key(&self) -> &En {
+    self
+  }
+}
+
+impl Elem for En {
+  type K = En;
+  type KeyArg = En;
+  const KIND: &'static str = "enum";
+  fn hkey(&self) -> En {
+    *self
+  }
+  fn key_arg(k: &En) -> En {
+    *k
+  }
+  fn jval(&self) -> Value {
+    match self {
+      En::A => json!("A"),
+      En::B(x) => json!({"B": x}),
+      En::C(x, y) => json!({"C": [x, y]}),
+    }
+  }
+  fn show(&self) -> String {
+    match self {
+      En::A => "A".into(),
+      En::B(x) => format!("B{}", x),
+      En::C(x, y) => format!("C{}.{}", x, y),
+    }
+  }
+  fn show_key(k: &En) -> String {
+    k.show()
+  }
+}
+
 fn show_list<T: Elem>(m: &[T]) -> String {
   format!("[{}]", m.iter().map(|e| e.show()).collect::<Vec<_>>().join(","))
 }
